@@ -73,9 +73,9 @@ func (c *Ctx) ruleSubAckShape(rr *RuleRep) {
 	}
 	isSubs := func(v ssa.Value) bool { return c.Resolve(v) == subs }
 	type eqEdge struct {
-		iff   *ssa.If
-		eqK   int // successor index on which lengths are equal
-		neqK  int
+		iff  *ssa.If
+		eqK  int // successor index on which lengths are equal
+		neqK int
 	}
 	var eqs []eqEdge
 	for _, b := range f.Blocks {
